@@ -5,10 +5,10 @@ use anstream::adapter::{strip_bytes, strip_str, StripBytes, StripStr};
 use std::io::Write as _;
 
 macro_rules! bytes_case {
-    ($one:ident, $inc:ident, $stream:ident, $n:expr) => {
+    ($one:ident, $inc:ident, $stream:ident, $n:expr, $u:literal) => {
         /// one-shot byte adapter, every byte string of this length
         #[kani::proof]
-        #[kani::unwind($n + 2)]
+        #[kani::unwind($u)]
         fn $one() {
             let buf: [u8; $n] = kani::any();
             let (keep, ctl) = spec(&buf, $n);
@@ -20,14 +20,16 @@ macro_rules! bytes_case {
                 assert!(mark(&buf, piece, &mut pos, &mut got), "piece: inside input, in order, no control byte");
             }
             assert!(same(&got, &keep), "output is exactly the visible text");
-            kani::cover!(ctl);
-            kani::cover!(keep[$n - 1] && !keep[0]);
+            #[cfg(not(feature = "kf_c01_ctl_in_broken_utf8"))]
+            kani::cover!(ctl || $n < 2);
+            kani::cover!((keep[$n - 1] && !keep[0]) || $n < 2);
             kani::cover!(buf[0] == 0x1B && !keep[$n - 1]);
+            kani::cover!(keep[0]);
         }
 
         /// incremental byte adapter fed the whole input at once
         #[kani::proof]
-        #[kani::unwind($n + 2)]
+        #[kani::unwind($u)]
         fn $inc() {
             let buf: [u8; $n] = kani::any();
             let (keep, ctl) = spec(&buf, $n);
@@ -40,12 +42,13 @@ macro_rules! bytes_case {
                 assert!(mark(&buf, piece, &mut pos, &mut got), "piece: inside input, in order, no control byte");
             }
             assert!(same(&got, &keep), "output is exactly the visible text");
-            kani::cover!(keep[$n - 1] && !keep[0]);
+            kani::cover!((keep[$n - 1] && !keep[0]) || $n < 2);
+            kani::cover!(keep[0]);
         }
 
         /// never-colour stream / strip stream over an in-memory writer
         #[kani::proof]
-        #[kani::unwind($n + 2)]
+        #[kani::unwind($u)]
         fn $stream() {
             let buf: [u8; $n] = kani::any();
             let (keep, ctl) = spec(&buf, $n);
@@ -67,22 +70,23 @@ macro_rules! bytes_case {
                 i += 1;
             }
             assert!(crate::common::sinks_equal(&sink, &want), "stream delivers exactly the visible text");
-            kani::cover!(want.len == 1 && $n > 1);
+            kani::cover!(want.len == 1);
+            kani::cover!(want.len == 0);
         }
     };
 }
 
-bytes_case!(bytes_oneshot_1, bytes_incremental_1, stream_1, 1);
-bytes_case!(bytes_oneshot_2, bytes_incremental_2, stream_2, 2);
-bytes_case!(bytes_oneshot_3, bytes_incremental_3, stream_3, 3);
-bytes_case!(bytes_oneshot_4, bytes_incremental_4, stream_4, 4);
-bytes_case!(bytes_oneshot_5, bytes_incremental_5, stream_5, 5);
+bytes_case!(bytes_oneshot_1, bytes_incremental_1, stream_1, 1, 3);
+bytes_case!(bytes_oneshot_2, bytes_incremental_2, stream_2, 2, 4);
+bytes_case!(bytes_oneshot_3, bytes_incremental_3, stream_3, 3, 5);
+bytes_case!(bytes_oneshot_4, bytes_incremental_4, stream_4, 4, 6);
+bytes_case!(bytes_oneshot_5, bytes_incremental_5, stream_5, 5, 7);
 
 macro_rules! str_case {
-    ($one:ident, $inc:ident, $n:expr) => {
+    ($one:ident, $inc:ident, $n:expr, $u:literal) => {
         /// one-shot text adapter, every UTF-8 string of this many bytes
         #[kani::proof]
-        #[kani::unwind($n + 2)]
+        #[kani::unwind($u)]
         fn $one() {
             let buf: [u8; $n] = kani::any();
             kani::assume(valid_utf8(&buf));
@@ -101,12 +105,13 @@ macro_rules! str_case {
                 assert!(mark(&buf, piece.as_bytes(), &mut pos, &mut got), "piece: inside input, in order, no control byte");
             }
             assert!(same(&got, &keep), "output is exactly the visible text");
-            kani::cover!(keep[$n - 1] && !keep[0]);
-            kani::cover!(buf[0] >= 0xC2 && keep[0]);
+            kani::cover!((keep[$n - 1] && !keep[0]) || $n < 2);
+            kani::cover!((buf[0] >= 0xC2 && keep[0]) || $n < 2);
+            kani::cover!(keep[0]);
         }
 
         #[kani::proof]
-        #[kani::unwind($n + 2)]
+        #[kani::unwind($u)]
         fn $inc() {
             let buf: [u8; $n] = kani::any();
             kani::assume(valid_utf8(&buf));
@@ -125,12 +130,26 @@ macro_rules! str_case {
                 assert!(mark(&buf, piece.as_bytes(), &mut pos, &mut got), "piece: inside input, in order, no control byte");
             }
             assert!(same(&got, &keep), "output is exactly the visible text");
-            kani::cover!(keep[$n - 1] && !keep[0]);
+            kani::cover!((keep[$n - 1] && !keep[0]) || $n < 2);
+            kani::cover!(!keep[0]);
         }
     };
 }
 
-str_case!(str_oneshot_1, str_incremental_1, 1);
-str_case!(str_oneshot_2, str_incremental_2, 2);
-str_case!(str_oneshot_3, str_incremental_3, 3);
-str_case!(str_oneshot_4, str_incremental_4, 4);
+str_case!(str_oneshot_1, str_incremental_1, 1, 3);
+str_case!(str_oneshot_2, str_incremental_2, 2, 4);
+str_case!(str_oneshot_3, str_incremental_3, 3, 5);
+str_case!(str_oneshot_4, str_incremental_4, 4, 6);
+
+/// Witness of the recorded finding `control-byte-swallowed-by-broken-utf8` (expected to
+/// FAIL while the defect is present): DEL right after a dangling lead byte reaches the output.
+#[kani::proof]
+#[kani::unwind(5)]
+fn kf_witness_ctl_in_broken_utf8() {
+    let buf: [u8; 2] = [0xC5, 0x7F];
+    let mut got = [false; 2];
+    let mut pos = 0usize;
+    for piece in strip_bytes(&buf) {
+        assert!(mark(&buf, piece, &mut pos, &mut got), "piece: inside input, in order, no control byte");
+    }
+}
